@@ -205,8 +205,11 @@ def main(c):
     lines = []
     meta = []   # (kind, cs, b, p)
     for cs in ("fcc", "bcc", "cubic"):
-        for (b, p) in fam3:
-            lines.append(fmt(cs, b, p)); meta.append(("sys", cs, b, p))
+        # FCC, BCC and Cubic only differ by the dispatch in SlipSystemsDescription.cxx: quick tier runs all families
+        # through FCC and one in three through the two others
+        for j, (b, p) in enumerate(fam3):
+            if cs == "fcc" or not c.quick() or j % 3 == 0:
+                lines.append(fmt(cs, b, p)); meta.append(("sys", cs, b, p))
     hcp_first = [f for f in GEO4] + [f for f in fam4 if f not in GEO4]
     for (b, p) in hcp_first:
         lines.append(fmt("hcp", b, p)); meta.append(("sys", "hcp", b, p))
@@ -221,6 +224,7 @@ def main(c):
         lines.append(fmt("hcp", b, p, True)); meta.append(("geo", "hcp", b, p))
     # two families in one description: the Schmid factors of the second family
     lines.append("geo fcc 1 -1 0 1 1 1 1 1 0 0 0 1"); meta.append(("geo2", "fcc", (1, -1, 0), (1, 1, 1)))
+    c.log("running the real code on %d descriptions" % len(lines))
     rc, out, err = c.run([drv], input="\n".join(lines) + "\n", timeout=900)
     if rc != 0:
         c.report("driver", "the driver running the real SlipSystemsDescription failed (rc=%d): %s" % (rc, err[-400:]),
@@ -240,6 +244,7 @@ def main(c):
     rc, mout, merr = c.run([mdl], input="\n".join(mlines) + "\n", timeout=900)
     if rc != 0:
         raise RuntimeError("extracted model failed: " + merr[-500:])
+    c.log("model evaluated; comparing")
     mblocks = parse_blocks(mout)
     assert len(mblocks) == len(mlines)
     mit = iter(mblocks)
@@ -250,7 +255,9 @@ def main(c):
     n_fix = n_pin = n_hcp = 0
     hcp_mismatch = []
     multi_orbit = 0
-    clause_fail = {}           # clause -> list of (cs, b, p, witness)
+    clause_fail = {}           # clause -> list of (family, witness)
+    corr_seen = set()
+    pf_cache = {}
     for i, (kind, cs, b, p) in enumerate(meta):
         blk = real[i]
         if kind not in ("sys", "free"):
@@ -268,9 +275,13 @@ def main(c):
             clause_fail.setdefault("acceptance", []).append((fam, "b.n = %d but the family is %s" % (
                 dot(b, p), "accepted" if accepted else "refused: " + blk["err"])))
         if accepted:
-            for (clause, wit) in property_failures(hcp, b, p, L):
+            ck = (hcp, b, p, tuple(L))      # FCC, BCC and Cubic share the generator: same answer, same verdict
+            if ck not in pf_cache:
+                pf_cache[ck] = (property_failures(hcp, b, p, L), kind != "sys" or single_orbit(hcp, b, p, L))
+            pf, so = pf_cache[ck]
+            for (clause, wit) in pf:
                 clause_fail.setdefault(clause, []).append((fam, wit))
-            if kind == "sys" and not single_orbit(hcp, b, p, L):
+            if not so:
                 multi_orbit += 1
         # 2. model = code, as multisets up to sign
         r = sorted(csys(s) for s in L) if accepted else None
@@ -281,7 +292,8 @@ def main(c):
             n_fix += okf
             if not (okp or okf):
                 hcp_mismatch.append((fam, r, m_pin))
-        elif r != m_pin:
+        elif r != m_pin and cs not in corr_seen:
+            corr_seen.add(cs)   # one concrete family per structure is enough
             c.report("correspondence:" + fam, "model and code disagree on family %s: code %s, model %s" % (fam, r, m_pin),
                      {"family": fam, "code": r, "model": m_pin, "how": "echo '%s' | driver" % lines[i]},
                      any(f == fam for fl in clause_fail.values() for (f, _) in fl))
@@ -318,6 +330,7 @@ def main(c):
     c.notes.append("families whose generated set is more than one orbit of the point group: %d" % multi_orbit)
 
     # ---------------------------------------------------------------- geometry, tensors, Schmid factors
+    c.log("families compared; geometry")
     ratio = None
     ngeo = 0
     schmid_bad = []
@@ -382,8 +395,8 @@ def main(c):
                  {"family": fam, "family_index": f, "direction": d, "observed": sf, "expected": exp,
                   "how": "echo 'geo %s' | .cache/work/C56/driver" % fam.replace(":", " ").replace("|", " ").replace(",", " ")}, True)
     c.notes.append("HCP c/a ratio read back from the code's slip directions: %r" % ratio)
-    c.coverage["rule"] = ("every family <b>{p} with |indices| <= %d for cubic, FCC, BCC (all with b.n = 0, one in 53 of the others, "
-                          "zero vectors included) and every Miller-Bravais family (i+j+k = 0) with |indices| <= 3 for HCP, plus %d "
+    c.coverage["rule"] = ("every family <b>{p} with |indices| <= %d for FCC (quick tier: one in three of them for BCC and Cubic, which "
+                          "share the generator; all with b.n = 0, one in 53 of the others, zero vectors included) and every Miller-Bravais family (i+j+k = 0) with |indices| <= 3 for HCP, plus %d "
                           "random HCP index pairs without the constraint (model/code tie only); geometry, tensors and Schmid "
                           "factors (7 loading directions) on %d systems; non-trivial = accepted family with more than one system"
                           % (c.pick(3, 4), len(free4), ngeo))
@@ -397,6 +410,7 @@ def main(c):
         files.append("Properties_C56_hcp_closed.v")
     else:
         files.append("Properties_C56_hcp_refuted.v")
+    c.log("proofs")
     res = c.coq(files, timeout=900)
     if not res.ok:
         if any(v[3] for v in c.violations):
